@@ -453,9 +453,10 @@ def rule_copyback(chk, prog):
         if bad is None and not (whole and inc and "begin()" in init or (whole and inc and "= 0" in init)):
             bad = "the loop does not step through all of vs and rs together (init `%s`, cond `%s`, step `%s`)" % (init, cond, inc)
         arg = norm(call_args(c)[0])
-        if arg in ("v.*.finalPosition", "(v.*).finalPosition"):
+        m_arg = re.match(r"^\(?(\w+)\.\*\)?\.finalPosition$", arg)
+        if m_arg:
             publishing.append(lp)
-        if bad is None and norm(call_object(c)) not in ("r.*", "(r.*)"):
+        if bad is None and not re.match(r"^\(?\w+\.\*\)?$", norm(call_object(c))):
             bad = "the mover is applied to `%s`, not to the rectangle the loop is at" % norm(call_object(c))
         (r.bad if bad else r.ok)(inst, fn.loc(c), bad or "")
     solves = [c for c in calls(fn) if c.get("cname") == "vpsc::Solver::solve"]
